@@ -6,6 +6,7 @@ pub mod findings;
 pub mod disk;
 pub mod store;
 pub mod clock;
+pub mod stream;
 
 pub use runner::{Property, RunCtx, RunReport, Violation, Tier};
 pub use tape::{Src, mix, fnv};
